@@ -207,6 +207,8 @@ Proof.
   - (* ORecv *)
     destruct (inbuf s =? 0); [destruct (pipe_closed s); cbn; now rewrite app_nil_r|].
     cbn. rewrite app_nil_r. apply (SInv_flags s); auto.
+  - (* OStdinClose *)
+    pose proof (send_eof_SInv s l H) as K. destruct (send_eof s); exact K.
   - (* OPeerEof *) destruct (in_map s); cbn; now rewrite app_nil_r.
   - destruct (in_map s); cbn; now rewrite app_nil_r.
   - destruct (in_map s); cbn; now rewrite app_nil_r.
